@@ -130,8 +130,6 @@ def toProg (funs : List Sx) : Conv Prog := do
 
 def fuel : Nat := 4000
 
-def wfProgB (P : Prog) : Bool := P.all (fun d => wfB d.body)
-
 /-! ### printing Go-core (the format of harness/fcdrv/gocore.go) -/
 
 def sx (items : List Sx) : Sx := .list items
